@@ -40,7 +40,10 @@ type Time time.Time
 func NewTimeFromTimeSinceGPSEpoch(sinceEpoch time.Duration) Time {
 	t := gpsEpochTime.Add(sinceEpoch)
 	for _, ls := range leapSecondsTable {
-		if ls.Time.Before(t) {
+		// ls.Time is the last regular UTC second before the leap second. On
+		// this (not yet corrected) time-line the leap second itself occupies
+		// the second after it, the correction applies once it has passed.
+		if !t.Before(ls.Time.Add(time.Second + ls.Duration)) {
 			t = t.Add(-ls.Duration)
 		}
 	}
@@ -53,7 +56,9 @@ func NewTimeFromTimeSinceGPSEpoch(sinceEpoch time.Duration) Time {
 func (t Time) TimeSinceGPSEpoch() time.Duration {
 	var offset time.Duration
 	for _, ls := range leapSecondsTable {
-		if ls.Time.Before(time.Time(t)) {
+		// the offset changes at the end of the second starting at ls.Time
+		// (e.g. 23:59:59), not within it.
+		if !time.Time(t).Before(ls.Time.Add(time.Second)) {
 			offset += ls.Duration
 		}
 	}
